@@ -22,6 +22,44 @@ TEXT = {
             "verdict, value and error variant; canonicalize is its Display. Correspondence on the full result incl. error variant; "
             "the spec's answer is also compared with the implementation directly.",
             "proof of equality with a declarative grammar reader"),
+    "C04": ("Theorems: Locale.inv x -> Spec.isCanonical (display x) (independent recogniser of the canonical form written from the property: "
+            "charset, case rules, variants/attributes strictly increasing, order t,u,x, keys sorted, no `true`, nothing for an empty "
+            "extension, private tags sorted); every value reachable by parsing, from_parts and any history of mutators satisfies inv "
+            "(reachability theorem step_inv / run_inv); canonicalize = parse then Display; display of a parsed value is never longer than "
+            "the input (weight argument over every parser loop). Correspondence: to_string/canonicalize output bytes on wf/near/token "
+            "streams and on every state of operation histories; an independent Python recogniser judges the implementation's strings.",
+            "proof that the representation invariant implies the canonical form, plus reachability of the invariant"),
+    "C05": ("Theorems: for every value with the representation invariant, parsing its display gives back the value (LangId, Locale, "
+            "ExtensionsMap, the four subtags; token-level versions with arbitrary continuation), parse => invariant, hence canonicalize is "
+            "idempotent for every byte string. Correspondence: parse(to_string(x)) == x computed by the real crates on wf/near/token streams, "
+            "subtags and every state of operation histories.",
+            "proof of the round trip on the invariant, reachability of the invariant"),
+    "C07": ("Theorems, generic in the tables (any tables satisfying tablesWF): maximize never panics/errs, fills all three, keeps every "
+            "given subtag (valid input), flag true iff a look-up hit, false leaves the identifier unchanged, variants/extensions untouched, "
+            "idempotent; lifted to Locale through step. Needs only 'a returned row is in the table and matches the key', not binary-search "
+            "correctness. Correspondence: max/limax/locmax on the CLDR-derived triple streams; the laws are evaluated on the implementation.",
+            "proof by case analysis on the look-up cascade under the table well-formedness predicate"),
+    "C08": ("Theorems, generic in the tables: minimize result maximizes to the same triple, uses only subtags of the maximized original, "
+            "never more script/region than the input, is the first of language / language-region / language-script that maximizes back, "
+            "idempotent, variants/extensions untouched, false leaves unchanged. The clause minimize(maximize(x)) = minimize(x) is FALSE for "
+            "the code and the model (kernel-checked witness und-Hant-DE on the shipped tables; it contradicts the 'first of three forms' clause) "
+            "- proved in the strongest true form (minimize_maximize_partial) and recorded as a known finding. Correspondence: "
+            "min/limin/liminmax/locmin on the triple streams.",
+            "proof by case analysis under tablesWF; one clause refuted with a kernel-checked witness"),
+    "C11": ("Theorems for arbitrary values: LangId.isMatch = the field-wise wildcard specification; flags off = equality; symmetric under "
+            "swapping operands with flags; reflexive; monotone in each flag; Locale.isMatch false with private tags, otherwise the id result, "
+            "independent of -u-/-t-. Correspondence: the full product domain of ids x flags, with and without extensions.",
+            "proof of equivalence with the declarative matching predicate"),
+    "C12": ("Theorems: the derived Ord (cmpLi/cmpLoc: field by field, None first, lexicographic) is a strict total order with cmp = Equal iff "
+            "equal; equal values feed equal hash streams (and the stream is injective); on invariant-satisfying values x = y iff "
+            "display x = display y (injectivity from the C05 round trip); == &str iff the canonical text equals the string. "
+            "Correspondence: eq / cmp / hash-eq / string-eq on pairs built along different routes.",
+            "proof of order laws and of display injectivity via the round trip"),
+    "C17": ("Theorems: unpack(pack s) = s and pack injective for every valid subtag of each type (fits u64/u32, never 0); "
+            "from_parts(into_parts x) = x on the invariant (exact characterisation of when it fails: Some([]) / unsorted); from_parts with "
+            "variants in any order with duplicates = parsing the joined string; Locale parts with the extension string re-parsed (C05). "
+            "Correspondence: parts / raw round trips and from_parts vs parse on generated values.",
+            "proof of pack/unpack inverse and of from_parts = parse"),
     "C13": ("Theorems: every input accepted by LanguageIdentifier is accepted by Locale with the same id, no extensions and the same string; "
             "for accepted locale strings without empty subtags the id is the parse of the part before the first singleton; the conversions "
             "are identities / projections. Correspondence: both parsers on the same bytes.",
@@ -37,7 +75,7 @@ TEXT = {
 def main():
     import props
     checks = []
-    for pid in sorted(props.PROPS):
+    for pid in sorted(props.CLAIMED):
         text, tech = TEXT.get(pid, ("Lean theorems in lean/UnicLocale/Props/%s.lean about the model, tied to the code by the "
                                     "correspondence streams of this check." % pid, "Lean 4 proof + correspondence"))
         checks.append({
@@ -53,7 +91,7 @@ def main():
         })
     all_ids = [json.loads(l)["id"] for l in open(os.path.join(ROOT, "properties.jsonl"))]
     na = [{"property_id": p, "reason": props.NOT_YET.get(p, "check not built yet in this round (model and statements exist; see DESIGN.md §4)")}
-          for p in all_ids if p not in props.PROPS]
+          for p in all_ids if p not in props.CLAIMED]
     m = {
         "version": 1,
         "setup_cmd": "./check setup",
@@ -66,7 +104,7 @@ def main():
             "add_only": True,
         },
         "engines": [{
-            "name": "lean4-model", "path": "lean/", "serves_properties": sorted(props.PROPS),
+            "name": "lean4-model", "path": "lean/", "serves_properties": sorted(props.CLAIMED),
             "kind_free_text": "Lean 4 model + specs + theorems (lake project UnicLocale, core Lean only), line-protocol driver (lean_exe), "
                               "Rust correspondence harness (harness/), translators (gen/)",
         }],
